@@ -333,6 +333,34 @@ theorem C17_stored_target (dir linkSegs : List String) (hne : linkSegs ≠ [""])
       List.reverse_nil, cleanAbs]
     split <;> rfl
 
+/-- Hard links (`tar.TypeLink`): the node addresses the archive entry the link names, read from the image
+root whatever directory the link sits in; a name that climbs above the root gets no node. Being a link
+node, it is then resolved exactly like a symlink (all theorems above apply: the answer is the first
+non-link target). There is no load error for an empty name (it denotes the root). -/
+theorem C17_hardlink_target (dir linkSegs : List String) :
+    handleHardLink dir linkSegs =
+      (match resolveLex [] (hardLinkSegs linkSegs) with
+       | some key => .node key
+       | none => .skipped) := by
+  have hne : hardLinkSegs linkSegs ≠ [""] := by
+    unfold hardLinkSegs
+    split
+    · rename_i h
+      simp only [Bool.and_eq_true, decide_eq_true_eq] at h
+      intro he; rw [he] at h; simp at h
+    · split <;> simp_all
+  have habs : (hardLinkSegs linkSegs).head? = some "" := by
+    unfold hardLinkSegs
+    split
+    · rename_i h
+      simp only [Bool.and_eq_true, decide_eq_true_eq] at h
+      exact h.2
+    · rfl
+  unfold handleHardLink
+  rw [C17_stored_target dir _ hne]
+  unfold denotes
+  simp [habs]
+
 /-- The two Lean models of the loader's symlink handling are the same functions: C04's
 (`Overlay.targetOutsideRoot`/`Overlay.targetSegs` in Model/OverlayImage.lean: leading ".." count and kept
 segments of `GoPath.cleanComps`) and C17's (`targetOutsideRoot`: marker directory on a segment stack;
@@ -406,6 +434,9 @@ example : handleSymlink [] ["", "n0"] = .node ["n0"] := by decide
 -- absolute names in any spelling are stored canonically (regression for fix a23f8926)
 example : handleSymlink [] ["", ".", "a"] = .node ["a"] ∧ handleSymlink [] ["", "", "a"] = .node ["a"] ∧
     handleSymlink ["s"] ["", "d", ""] = .node ["d"] ∧ handleSymlink [] ["", ""] = .node [] := by decide
+-- hard links are read from the root, whatever directory they sit in
+example : handleHardLink ["s"] ["a"] = .node ["a"] ∧ handleHardLink ["s"] ["", "s", "d"] = .node ["s", "d"] ∧
+    handleHardLink ["s"] ["..", "a"] = .skipped ∧ handleHardLink ["s"] [""] = .node [] := by decide
 -- the specification's resolver on the same names
 example : denotes ["s"] ["", "s", "d"] = some ["s", "d"] ∧ denotes ["s"] ["..", ".", "a"] = some ["a"] ∧
     denotes ["s"] ["..", "..", "a"] = none ∧ denotes [] ["", ".", "a"] = some ["a"] := by decide
